@@ -848,7 +848,7 @@ def finish(ctx, results, meta, extra_results=()):
             # violation of the property demonstrated on the real code, reported as such and labelled as found by the probe, not by the solver.
             probes = _probe_list(r.ob)
             ok = False
-            if len(violations) < MAX_REPLAYS and "build:" not in (r.detail or ""):
+            if len(violations) < MAX_REPLAYS:  # also when the symbolic build failed (e.g. an intrinsic the shim does not model): the native build has the real headers
                 for pi, probe in enumerate(probes):
                     ok, text, rpath = native_replay(ctx, r.ob, probe, "%dq%d" % (len(violations), pi))
                     if ok:
